@@ -637,6 +637,11 @@ func runC02(c c02Case, o *vfutil.Obs) *vfutil.Failure {
 			if !caught.After(removedAt[n.id]) {
 				continue
 			}
+			// the leader's own rule about the replica's position (the real code decides)
+			if !r.hasAllCommitted() {
+				o.Label("expand-refused-replica-lacks-committed-messages")
+				continue
+			}
 			_, le := lp.GetLeader()
 			op := &proto.RaftLog{Op: proto.Op_EXPAND_ISR, ExpandISROp: &proto.ExpandISROp{Stream: w.name, Partition: 0, ReplicaToAdd: n.id, Leader: leader, LeaderEpoch: le}}
 			if err := w.propose(op, "expand", ids); err != nil {
